@@ -1380,3 +1380,37 @@ impl PeerAware for PeerStates {
             .map(|peer_state| peer_state.announced_nlri.iter())
     }
 }
+
+// --- verif-hooks (add-only, off by default) --------------------------------
+#[cfg(feature = "verif-hooks")]
+impl PeerStates {
+    /// Read-only view of every peer that is currently 'up', for the external
+    /// verification harness.
+    pub fn verif_peers(
+        &self,
+    ) -> impl Iterator<Item = (&PerPeerHeader<Bytes>, &PeerState)> {
+        self.0.iter()
+    }
+}
+
+#[cfg(feature = "verif-hooks")]
+impl BmpState {
+    /// The per-peer table of the Dumping / Updating phases (None otherwise).
+    pub fn verif_peer_states(&self) -> Option<&PeerStates> {
+        match self {
+            BmpState::Dumping(v) => Some(&v.details.peer_states),
+            BmpState::Updating(v) => Some(&v.details.peer_states),
+            _ => None,
+        }
+    }
+
+    /// The sysName recorded by the last Initiation message, if any.
+    pub fn verif_sys_name(&self) -> Option<String> {
+        match self {
+            BmpState::Initiating(v) => v.details.sys_name.clone(),
+            BmpState::Dumping(v) => Some(v.details.sys_name.clone()),
+            BmpState::Updating(v) => Some(v.details.sys_name.clone()),
+            _ => None,
+        }
+    }
+}
